@@ -7,6 +7,11 @@ use std::time::Instant;
 
 pub const HTTP2_CONNECTION_PREFACE: &[u8] = b"PRI * HTTP/2.0\r\n\r\nSM\r\n\r\n";
 
+/// HEADERS / CONTINUATION frame flags (RFC 7540, section 6.2)
+const FLAG_END_HEADERS: u8 = 0x4;
+const FLAG_PADDED: u8 = 0x8;
+const FLAG_PRIORITY: u8 = 0x20;
+
 #[derive(Debug, Clone, PartialEq)]
 #[repr(u8)]
 pub enum Http2FrameType {
@@ -248,7 +253,12 @@ impl<'a> Http2Parser<'a> {
         let Some(stream_id) = self.find_primary_stream(&frames) else {
             return Ok(None);
         };
-        let stream = self.build_stream(stream_id, &frames)?;
+        let stream = match self.build_stream(stream_id, &frames) {
+            Ok(stream) => stream,
+            // header block not terminated yet (CONTINUATION frames still to come)
+            Err(Http2ParseError::IncompleteFrame) => return Ok(None),
+            Err(e) => return Err(e),
+        };
 
         let method = stream
             .method
@@ -330,7 +340,12 @@ impl<'a> Http2Parser<'a> {
         let Some(stream_id) = self.find_primary_stream(&frames) else {
             return Ok(None);
         };
-        let stream = self.build_stream(stream_id, &frames)?;
+        let stream = match self.build_stream(stream_id, &frames) {
+            Ok(stream) => stream,
+            // header block not terminated yet (CONTINUATION frames still to come)
+            Err(Http2ParseError::IncompleteFrame) => return Ok(None),
+            Err(e) => return Err(e),
+        };
 
         let status = stream
             .status
@@ -560,10 +575,28 @@ impl<'a> Http2Parser<'a> {
         // parsed (possibly unrelated or hostile) connection must not leak into this one.
         *self.hpack_decoder.borrow_mut() = Decoder::new();
 
+        // A header block is the HEADERS fragment (without padding and priority fields) followed by
+        // the payloads of its CONTINUATION frames; it is decoded once, when END_HEADERS is seen.
+        let mut block: Vec<u8> = Vec::new();
+        let mut block_open = false;
+
         for frame in stream_frames {
             match frame.frame_type {
                 Http2FrameType::Headers | Http2FrameType::Continuation => {
-                    let frame_headers = self.parse_headers_payload(&frame.payload)?;
+                    if frame.frame_type == Http2FrameType::Headers {
+                        block.extend_from_slice(Self::header_block_fragment(frame)?);
+                        block_open = true;
+                    } else if block_open {
+                        block.extend_from_slice(&frame.payload);
+                    } else {
+                        continue;
+                    }
+                    if frame.flags & FLAG_END_HEADERS == 0 {
+                        continue;
+                    }
+                    block_open = false;
+                    let complete_block = std::mem::take(&mut block);
+                    let frame_headers = self.parse_headers_payload(&complete_block)?;
                     for header in frame_headers {
                         match header.name.as_str() {
                             ":method" => method = Some(header.value.clone().unwrap_or_default()),
@@ -583,7 +616,38 @@ impl<'a> Http2Parser<'a> {
             }
         }
 
+        if block_open {
+            // HEADERS seen but the block is not terminated yet: wait for the CONTINUATION frames
+            return Err(Http2ParseError::IncompleteFrame);
+        }
+
         Ok(Http2Stream { stream_id, headers, method, path, authority, scheme, status })
+    }
+
+    /// The header block fragment of a HEADERS frame: payload minus the pad length octet, the
+    /// optional priority fields and the trailing padding (RFC 7540, section 6.2).
+    fn header_block_fragment(frame: &Http2Frame) -> Result<&[u8], Http2ParseError> {
+        let mut fragment: &[u8] = &frame.payload;
+        let mut pad_length = 0usize;
+        if frame.flags & FLAG_PADDED != 0 {
+            let (first, rest) = fragment
+                .split_first()
+                .ok_or(Http2ParseError::InvalidFrameLength(frame.length))?;
+            pad_length = usize::from(*first);
+            fragment = rest;
+        }
+        if frame.flags & FLAG_PRIORITY != 0 {
+            fragment = fragment
+                .get(5..)
+                .ok_or(Http2ParseError::InvalidFrameLength(frame.length))?;
+        }
+        let end = fragment
+            .len()
+            .checked_sub(pad_length)
+            .ok_or(Http2ParseError::InvalidFrameLength(frame.length))?;
+        fragment
+            .get(..end)
+            .ok_or(Http2ParseError::InvalidFrameLength(frame.length))
     }
 
     fn parse_headers_payload(&self, payload: &[u8]) -> Result<Vec<HttpHeader>, Http2ParseError> {
